@@ -1977,7 +1977,10 @@ func detExplain(o *Out, hist, k int, txs []detTx, x, y blockObs, prefix string, 
 		if i >= len(y.txs) {
 			break
 		}
-		if i < len(x.known) && x.known[i] != "" && (x.txs[i] != y.txs[i] || x.gas[i] != y.gas[i]) &&
+		// (not against the node imported AS-IS: there a different gas-at-out-of-gas is one more consequence of the state the genesis
+		// does not carry — e.g. the 36 gas of F37 move the point where the meter trips — and is reported with the coarse
+		// export-import:subsequent-results keys like every other tx of that node; seen at det seed 1006 hist 17 block 37: 81628 | 81626)
+		if prefix != "export-import" && i < len(x.known) && x.known[i] != "" && (x.txs[i] != y.txs[i] || x.gas[i] != y.gas[i]) &&
 			gasUsedRe.ReplaceAllString(x.txs[i], "") == gasUsedRe.ReplaceAllString(y.txs[i], "") {
 			o.Fail(x.known[i], fmt.Sprintf("hist %d block %d tx %d (%s %T) through ABCI on two nodes: gas used %d | %d; %s", hist, k, i, txs[i].kind, txs[i].msgs[0], x.gas[i], y.gas[i], x.txs[i]))
 			explained = true
